@@ -32,6 +32,7 @@ pub fn run(rep: &mut Report, tier: Tier, sel: &[&str], eval: Eval<'_>) {
             "vtok" => u_vtok(rep, tier, eval),
             "nest" => u_nest(rep, tier, eval),
             "reopen" => u_reopen(rep, tier, eval),
+            "stmt-values" => u_stmt_values(rep, tier, eval),
             "utf8" => u_utf8(rep, tier, eval),
             other => panic!("unknown universe {}", other),
         }
@@ -896,4 +897,25 @@ fn u_reopen(rep: &mut Report, _tier: Tier, eval: Eval<'_>) {
     let f = |s: &str, acc: &mut Acc| eval(s.as_bytes(), "U-reopen", acc);
     let (total, acc) = sweep_list(&cases, &f);
     rep.absorb("U-reopen", "every ordered selection of <= 4 headers from {p, p.c, p.c.x, p.d, q} x 4 section bodies (0-3 key/value lines) x {[p], [[p]]}", total, true, t0, acc);
+}
+
+
+/// statements whose VALUE decides what a later statement may do: arrays of inline tables (which are not arrays of
+/// tables), nested arrays, empty containers, inline tables with tables inside
+fn u_stmt_values(rep: &mut Report, _tier: Tier, eval: Eval<'_>) {
+    let t0 = Instant::now();
+    let paths = ["a", "b", "a.a", "a.b", "b.a"];
+    let vals = ["[{a = 1}]", "[{}]", "[[1]]", "[]", "{}", "{a = {}}", "{a = []}", "[{a = 1}, {a = 2}]", "1"];
+    let mut st: Vec<String> = Vec::new();
+    for p in paths {
+        for v in vals {
+            st.push(format!("{} = {}\n", p, v));
+        }
+        st.push(format!("[{}]\n", p));
+        st.push(format!("[[{}]]\n", p));
+    }
+    let refs: Vec<&str> = st.iter().map(|s| s.as_str()).collect();
+    let f = |s: &str, acc: &mut Acc| eval(s.as_bytes(), "U-stmt-values", acc);
+    let (total, acc) = sweep_upto(&refs, 3, "", "", &f);
+    rep.absorb("U-stmt-values", &format!("every sequence of <= 3 statements from {} (5 paths x 9 value forms incl. arrays of inline tables and empty containers, [p], [[p]])", st.len()), total, true, t0, acc);
 }
